@@ -303,6 +303,25 @@ def with_hw(spec, per_einsum_bindings, layouts, bits="cp", instances=("single", 
     return s
 
 
+def config(base, labels_by_einsum, bits="cp"):
+    """One configuration built directly from the binding menus (independent of the slices configs() draws):
+    labels_by_einsum = {output name: [menu labels]}.  Unknown base or label is an error."""
+    for tag, spec, exts in base_specs(False):
+        if tag != base:
+            continue
+        layouts = loop_layout(spec, None)
+        per = {}
+        for e in spec["exprs"]:
+            o = e["out"][0]
+            if o not in labels_by_einsum:
+                continue
+            lo = ((spec.get("mapping") or {}).get("loop-order") or {}).get(o) or [v.upper() for v in __import__("mc.model.dense", fromlist=["x"]).expr_vars(e)]
+            menu = dict(binding_menu(o, e, layouts, lo, False))
+            per[o] = merge_bindings([menu[l] for l in labels_by_einsum[o]])
+        return with_hw(spec, per, layouts, bits), exts
+    raise KeyError(base)
+
+
 def configs(quick, maxb=None):
     """(tag, spec with hardware, extents, labels)"""
     maxb = maxb or (2 if quick else 3)
